@@ -186,3 +186,64 @@ def int_sum(xs):
     if len(xs) == 0:
         return 0
     return int_sum(xs[:len(xs) - 1]) + xs[len(xs) - 1]
+
+
+# ------------------------------------------------------------------ C13: line labelling
+def _span_builder(which):
+    def build(ts):
+        from pyvc import models
+        pat, flags, s = ts
+        a, b = models.regex_span_fns(pat.lit[1], flags.lit[1])
+        return _smt.CTX.app(a if which == 'start' else b, s)
+    return build
+
+
+@_native('(str, int, str) -> int', _span_builder('start'))
+def re_search_start(pattern, flags, s):
+    return _re.search(pattern, s, flags).start()
+
+
+@_native('(str, int, str) -> int', _span_builder('end'))
+def re_search_end(pattern, flags, s):
+    return _re.search(pattern, s, flags).end()
+
+
+INDENT_PATTERN = r'^([ ]*)(?=\S)'
+
+
+def indent_of(line):
+    """Number of leading spaces of a non-blank line (0 for a blank line)."""
+    if not re_search(INDENT_PATTERN, 8, line):
+        return 0
+    return re_search_end(INDENT_PATTERN, 8, line) - re_search_start(INDENT_PATTERN, 8, line)
+
+
+def has_prompt(line, prompt):
+    """The line is exactly the prompt or starts with the prompt followed by a space."""
+    return line == prompt or line.startswith(prompt + ' ')
+
+
+def next_label(prev, line, state_indent):
+    """C13: the label of a line given the label of the previous line and the indentation of the example it belongs to.
+    text: a primary prompt opens source.  after source: blank or de-indented -> text; a prompted line is source ('...'-prefixed:
+    continuation; a BARE '...' is want after a primary-prompt line and continuation after a continuation); anything else is want.
+    in a want: blank -> text; a primary prompt -> source (even when de-indented); de-indented -> text; else want."""
+    strip = line.strip()
+    if prev == 'text':
+        return 'dsrc' if has_prompt(strip, '>>>') else 'text'
+    if prev == 'want':
+        if strip == '':
+            return 'text'
+        if has_prompt(strip, '>>>'):
+            return 'dsrc'
+        if indent_of(line) < state_indent:
+            return 'text'
+        return 'want'
+    norm = line[state_indent:]
+    if strip == '' or indent_of(line) < state_indent:
+        return 'text'
+    if has_prompt(norm, '>>>') or has_prompt(norm, '...'):
+        if strip == '...':
+            return 'dcnt' if prev == 'dcnt' else 'want'
+        return 'dcnt' if has_prompt(norm, '...') else 'dsrc'
+    return 'want'
